@@ -125,7 +125,7 @@ func containsPrivUse(fn *ssa.Function) bool {
 var c05Exempt = map[string]string{
 	"lock": "the wipe itself", "Lock": "transition", "Unlock": "transition: derives the keys from the supplied passphrase", "ChangePassphrase": "transition: uses a key derived from the supplied old passphrase",
 	"Close": "wipe", "ConvertToWatchingOnly": "transition", "Create": "creation", "createManagerKeyScope": "creation (keys are parameters)", "loadManager": "open", "Open": "open", "newManager": "constructor",
-	"Validate": "signs a caller-supplied challenge with the cached buffer and returns only an error; with a wiped buffer the check fails closed (not a reveal point)",
+	"Validate":            "signs a caller-supplied challenge with the cached buffer and returns only an error; with a wiped buffer the check fails closed (not a reveal point)",
 	"NewScopedKeyManager": "crypto-gated: decrypting the root key with the zeroed crypto key fails authentication and is reported as ErrLocked (confirmed by reading)",
 }
 
